@@ -149,7 +149,7 @@ def large_cases(draw, tier):
 
 def subchecks():
     return [
-        HypSub("table_random", table_cases, check_table_batched, quick=5000, thorough=80000),
+        HypSub("table_random", table_cases, check_table_batched, quick=10000, thorough=150000),
         HypSub("table_large", large_cases, check_table, quick=300, thorough=4000),
         EnumSub("small_scope", small_datasets, check_small),
     ]
